@@ -55,6 +55,7 @@ SIG_META4 = "placement:meta-in-first-4-bytes"
 SIG_ESC = "placement:backslash-in-glob"
 SIG_POSIX = "placement:posix-class"
 SIG_KEEP_SHADOW = "keep:shadowed-by-earlier-description"
+SIG_NOBITS = "panic:nobits-first-description-then-progbits"
 
 
 def is_glob(p):
@@ -183,7 +184,8 @@ OBJ_NAMES = ["a.o", "b.o", "ab.o", "a1.o", "m.o", "xa.o", "a-b.o", "a_b.o"]
 POSIX = ["[[:alpha:]]", "[[:digit:]]", "[[:alnum:]]", "[[:punct:]]", "[[:lower:]]"]
 
 LIVE_OPS = ["lit", "q", "cls", "cls", "star_tail", "star_tail", "star_mid", "mut", "q"]
-EXOTIC_OPS = ["esc", "posix", "star_head", "trunc", "dstar", "unclosed", "early_q", "early_cls", "trunc_star"]
+EXOTIC_OPS = ["esc", "esc", "posix", "posix", "star_head", "star_head", "trunc", "dstar", "unclosed", "early_q", "early_q",
+              "early_cls", "early_cls", "trunc_star", "star_head", "esc"]
 
 
 def make_class(c, form, x, y):
@@ -281,7 +283,7 @@ def derive(name, ops):
 
 @st.composite
 def case_strategy(draw):
-    exotic = draw(st.integers(0, 99)) >= 78
+    exotic = draw(st.integers(0, 99)) >= 80
     no_short = draw(st.booleans())  # exotic cases: half of them avoid the panicking class
     # --- section-name vocabulary
     n_names = draw(st.integers(2, 7))
@@ -489,6 +491,16 @@ class C15(Check):
                     cls |= sec_pattern_classes(p)
         if case["gc"] and any(m["keep_any"] and not m["keep_first"] for m in model.values()):
             cls.add(SIG_KEEP_SHADOW)
+        # The assembler gives every object an empty NOBITS `.bss`.  An output section whose first
+        # description receives it while a later description receives PROGBITS data panics in wild
+        # (known finding); it has nothing to do with the pattern itself.
+        claimed = False
+        for o in case["outs"]:
+            for di, dd in enumerate(o["descs"]):
+                if any(fnm(p, ".bss") for p in dd["pats"]) and not claimed:
+                    claimed = True
+                    if di + 1 < len(o["descs"]):
+                        cls.add(SIG_NOBITS)
         return cls
 
     def run_case(self, case, ctx):
@@ -564,6 +576,8 @@ class C15(Check):
             raise Inconclusive("wild timed out")
         if w.rc < 0 or w.rc == 101 or "panicked at" in w.err:
             sig = panic_signature(w.err) if "panicked at" in w.err else f"crash:rc={w.rc}"
+            if SIG_NOBITS in known_classes and "output_section_part_map.rs" in w.err:
+                sig = SIG_NOBITS
             raise Violation(sig, f"GNU ld accepts the script, wild crashes (rc={w.rc}): "
                             f"{w.err.strip()[:300]}", {"script": script})
         if w.rc != 0:
